@@ -42,6 +42,9 @@ EXTRA_C = [
     ("doubles", "double d = 0.1; float ff = 2.5; double f(double x){ return x * 123456789012345678901234567890.0 + 0.00000001 - 2.5; }"),
     ("negatives", "long long f(long long a){ return a * -9223372036854775807LL - 1 + (a & -128); } signed char g(signed char c){ return c + -128; }"),
     ("forward_call", "int h(int); int f(int a){return h(a);} int g(int h){return h+1;} int h(int x){return x*2;}"),
+    ("forward_call_two_callers", "void first(void); void second(void); int third(int); void helper(void); int g; void first(void){ helper(); } void second(void){ g++; helper(); } int third(int a){ first(); second(); helper(); return g + a; } void helper(void){ g += 3; }"),
+    ("forward_var_two_users", "extern int late; int a1(void){ return late + 1; } int a2(void){ return late * 2; } int late = 5;"),
+    ("mutual_recursion", "int even(int n); int odd(int n); int even(int n){ return n == 0 ? 1 : odd(n - 1); } int odd(int n){ return n == 0 ? 0 : even(n - 1); } int f(int a){ return even(a & 7) + 2 * odd(a & 3); }"),
     ("void_proc", "int g; void set(int v){ g = v; } static void twice(void){ set(g*2); } int f(int a){ set(a); twice(); return g; }"),
     ("char_array_init", "char msg[] = \"hello\"; short tab[3] = {-1, 2, -3}; int f(int i){ return msg[i&3] + tab[i%3]; }"),
     ("struct_global_init", "struct P {char c; int x; short s;}; struct P gp = {1, -2, 3}; struct P *pp = &gp; int f(int a){ return pp->x + gp.s + a; }"),
